@@ -85,6 +85,8 @@ pub struct SLenses {
     pub exact_end: bool,
     pub orphan_safety: bool,
     pub abort_end: bool,
+    /// at quiescence: refcounts, known blobs and CAS statistics equal what the final index implies
+    pub stats_end: bool,
 }
 
 #[derive(Clone, Debug)]
@@ -755,6 +757,35 @@ pub fn execute(case: &SchedCase, lenses: SLenses, stall: &mut bool) -> R<Execute
         let st = list_files(&dir.join("staging")).len();
         if st != 0 {
             fail!("listing/staging-leftover", "staging/ holds {st} files after all threads finished");
+        }
+    }
+    if lenses.stats_end {
+        let g = cas.read_index_state();
+        let mut rc: BTreeMap<[u8; 32], (u32, u64)> = BTreeMap::new();
+        for (h, sz) in final_map.values() {
+            let e = rc.entry(*h).or_insert((0, *sz));
+            e.0 += 1;
+        }
+        let got: BTreeMap<[u8; 32], u32> = g.known_blobs().map(|(h, c)| (*h.as_bytes(), *c)).collect();
+        let exp: BTreeMap<[u8; 32], u32> = rc.iter().map(|(h, (c, _))| (*h, *c)).collect();
+        if got != exp {
+            fail!("stats/refcounts", "at quiescence known_blobs {:?} differ from the counts implied by the index {:?}", got.values().collect::<Vec<_>>(), exp.values().collect::<Vec<_>>());
+        }
+        let st = g.stats();
+        let ub = rc.len() as u64;
+        let tb: u64 = rc.values().map(|(_, l)| *l).sum();
+        if st.cas.unique_blobs != ub || st.cas.total_bytes != tb {
+            fail!("stats/cas-stats", "at quiescence stats report unique_blobs={} total_bytes={}, the index implies {ub}/{tb}", st.cas.unique_blobs, st.cas.total_bytes);
+        }
+        drop(g);
+        if cas.stats().cas.unique_blobs != ub || cas.stats().cas.total_bytes != tb {
+            fail!("stats/cas-stats", "at quiescence Cas::stats() differs from what the index implies");
+        }
+        for (k, (h, sz)) in &final_map {
+            let file = std::fs::metadata(dir.join("cas").join(rel_path_of(h))).map(|m| m.len()).ok();
+            if file != Some(*sz) {
+                fail!("stats/item-size", "at quiescence the recorded size of {k:?} is {sz}, its blob file has {file:?} bytes");
+            }
         }
     }
     if lenses.linearizable {
